@@ -584,3 +584,50 @@ class ImmutabilityMonitor:
             f"stream #{e.id} ({e.how}) changed its {what} after step {hist.step} ({kind} {str(info)[:160]}); before={dump[:160]} now={now[:160]}",
             {"history": [str(x)[:200] for x in getattr(hist, 'trace', [])][-40:], "stream": e.how, "what": what},
         )
+
+
+def without_empty_keywords(tree):
+    """the tree as a program assembles it by hand: ast.Call(func=.., args=[..]) with the `keywords` field simply not given (python 3.12
+    leaves it absent; ast.dump, generic_visit and compile tolerate that). Returns a deep copy"""
+    import ast as _ast
+    import copy as _copy
+
+    t = _copy.deepcopy(tree)
+    n = 0
+    for c in _ast.walk(t):
+        if isinstance(c, _ast.Call) and getattr(c, "keywords", None) == []:
+            del c.keywords
+            n += 1
+    return t, n
+
+
+def with_keywords_again(tree):
+    import ast as _ast
+
+    for c in _ast.walk(tree):
+        if isinstance(c, _ast.Call) and not hasattr(c, "keywords"):
+            c.keywords = []
+    return tree
+
+
+def half_built_calls(ctx, transform, texts, label):
+    """transform(tree) on trees whose calls were built without a keywords field gives what it gives for the same trees built in full"""
+    import ast as _ast
+
+    from . import astx as _astx
+
+    for text in texts:
+        full = _astx.parse_expr(text)
+        bare, n = without_empty_keywords(full)
+        if not n:
+            continue
+        ctx.case(f"half-built-calls:{label}:{text}", True)
+        ctx.count("trees-with-calls-built-without-a-keywords-field")
+        want = transform(full)
+        try:
+            got = with_keywords_again(transform(bare))
+        except Exception as e:
+            ctx.violation(f"exc-on-calls-built-without-keywords:{type(e).__name__}", f"{label}: {text} with its {n} keyword-less calls built without the field: {type(e).__name__}: {str(e)[:120]}", {"half_built": True})
+            continue
+        if _ast.dump(got) != _ast.dump(want):
+            ctx.violation("calls-built-without-keywords-transformed-differently", f"{label}: {text}: {_ast.unparse(got)[:160]} instead of {_ast.unparse(want)[:160]}", {"half_built": True})
